@@ -391,6 +391,12 @@ class MTL:
                 stack.extend(P.parents(n))
         return [f for f in self.features if f not in used]
 
+    def multi_output_features(self):
+        """a feature that is one output of a multi-output op (split/unbind): torch's engine decides which nodes to
+        execute per NODE, not per output, so gradients w.r.t. such a feature may execute (and, with
+        retain_graph=False, release) trunk nodes that lead to a sibling output — outside C13's hypothesis"""
+        return any(self.P.nodes[f].group is not None for f in self.features)
+
     def nested_features(self):
         """some feature is computed from another feature: then a task's backward pass traverses trunk
         nodes, and retain_graph=False makes the later sweeps fail (outside C13's hypothesis)"""
